@@ -10,6 +10,16 @@ REPO = "/repo"
 
 
 FIRST_MISSED = {
+    "C12j": "C12-L3 the refund's funded total comes from the LAST asset_history entry, not from the epoch-bounded lookup helper",
+    "C12l": "C12-L1 the cumulative total recorded by an expansion is computed from reads made after the reset",
+    "C13j": "C13-W2 the snapshot of the previous position amount is taken before the amount is increased",
+    "C14l": "C14-S2 fee booking of swap (C07-F1/F4 caught it at first sight, now filed under C14 too)",
+    "C15k": "C15-M3 the slippage check's reserves are net of pending fees for every asset kind (C01-V1 caught it at first sight)",
+    "C15l": "C15-M4 with minimum_receive given no successful return skips the assertion message",
+    "C16j": "C16-owner-transfer the stored owner is the RESULT of addr_validate / addr_canonicalize",
+    "C17j": "C17-P4 a flag is assigned only when the request names it (unreachable with the field None)",
+    "C18l": "C18-store no CONFIG.save precedes a point where the handler can still reject",
+    "C20l": "C20-E5 the epoch the hooks are told about has the provenance of the epoch that was saved",
     "C01j": "C01-V6 constant-product share = min_i(deposit_i.multiply_ratio(total_share, pool_i)), same pool position on both sides",
     "C01k": "C01-V1 every reserve handed to the pricing routine is net of pending fees on every reaching definition",
     "C01l": "C01-V1 / C07-F3 the pending ledger is written back on every path to a successful return",
